@@ -240,8 +240,8 @@ func c03Gen(tier string, rng *rand.Rand, emit func(interface{})) {
 	}
 	for it := 0; it < nNear; it++ {
 		n1, n2 := 1+rng.Intn(8), 1+rng.Intn(8)
-		if it%6 == 0 {
-			n1, n2 = 20+rng.Intn(40), 20+rng.Intn(40)
+		if it%10 == 0 {
+			n1, n2 = 12+rng.Intn(14), 12+rng.Intn(14) // the model's exact table stays cheap
 		}
 		x1, x2 := mwNearEqual(rng, n1, n2)
 		mx := n1
